@@ -261,6 +261,7 @@ class VT:
         y, x = self.row, self.col
         self._fix_left(y, x)
         self._fix_right(y, x + k)
+        self._lastcell = (y, x)
         self.grid[y][x] = (ch, self.sgr)
         for i in range(1, k):
             self.grid[y][x + i] = ("", self.sgr)
@@ -274,17 +275,13 @@ class VT:
             self.pending = self.autowrap
 
     def _combine(self, ch):
-        # zero-width character: attach to the glyph written last (left of the cursor, or under it when the
-        # cursor could not advance)
-        y = self.row
-        x = self.col if (self.pending or (self.col == self.w - 1 and self._last_at == (y, self.col))) else self.col - 1
-        while x > 0 and self.grid[y][x][0] == "":
-            x -= 1
-        if 0 <= x < self.w:
+        # zero-width character: attaches to the glyph printed immediately before it
+        if self._lastcell is not None:
+            y, x = self._lastcell
             t, a = self.grid[y][x]
             self.grid[y][x] = (t + ch, a)
 
-    _last_at = None
+    _lastcell = None
 
     def _erase(self, down):
         y, x = self.row, self.col
@@ -414,6 +411,8 @@ class VT:
         i, n = 0, len(data)
         while i < n:
             ch = data[i]
+            if ch < " " or ch == "\x7f":
+                self._lastcell = None
             if ch == "\x1b":
                 if i + 1 < n and data[i + 1] == "[":
                     j = i + 2
@@ -431,8 +430,14 @@ class VT:
                     i = k + 1
                     continue
                 if i + 1 < n and data[i + 1] == "]":
-                    k = data.find("\x07", i)
-                    i = n if k < 0 else k + 1
+                    # OSC … terminated by BEL or ST (ESC \)
+                    k1 = data.find("\x07", i)
+                    k2 = data.find("\x1b\\", i + 2)
+                    ends = [e for e in ((k1 + 1) if k1 >= 0 else -1, (k2 + 2) if k2 >= 0 else -1) if e > 0]
+                    if not ends:
+                        self.unknown.append("unterminated OSC")
+                        return
+                    i = min(ends)
                     continue
                 self.unknown.append("esc")
                 i += 2
@@ -456,7 +461,6 @@ class VT:
                     self._combine(ch)
                 else:
                     self._glyph(ch, k)
-                    self._last_at = (self.row, self.col)
             i += 1
 
     # -- views
@@ -1031,13 +1035,14 @@ def oracle(case):
         if (vt.row - vt.top, vt.col) != (sv.row - sv.top, sv.col):
             bad("incremental != from-scratch (cursor)",
                 f"{where}: cursor {(vt.row - vt.top, vt.col)} vs scratch {(sv.row - sv.top, sv.col)}")
-        if vt.visible != sv.visible:
+        after_reset = done and case["kind"] != "diff"      # Renderer.reset() shows the cursor again
+        if vt.visible != sv.visible and not after_reset:
             bad("incremental != from-scratch (cursor visibility)", where)
         if vt.sgr != VT.PLAIN:
             bad("attributes not reset after render", where)
         if vt.autowrap != (done or not fs):
             bad("autowrap state", f"{where}: autowrap={vt.autowrap}")
-        if vt.visible != bool(js["show"]):
+        if vt.visible != (True if after_reset else bool(js["show"])):
             bad("cursor visibility", f"{where}: visible={vt.visible} show_cursor={js['show']}")
         if done:
             if (vt.row - vt.top, vt.col) != (new_h - shift, 0):
